@@ -66,6 +66,8 @@ const (
 	epochIDLen = 8
 	// linux file name max length
 	fileNameMaxLen = 255
+	// memfd_create(2): the name may take up to 249 bytes
+	memfdNameMaxLen = 249
 	// buffer path = %s_epoch_${epochID}_${randID}
 	// len("_epoch_") + maxUint64StrLength + len("_") + maxUint64StrLength
 	epochInfoMaxLen = 7 + 20 + 1 + 20
